@@ -222,6 +222,42 @@ func cmdCheck(args []string) int {
 		timeout = 3 // safety obligations that are provable at all are discharged in well under a second
 	}
 	dischargeAll(all, filepath.Join(outDir, "smt"), timeout, requireAll, 10)
+	// optional loop invariants ("invariant?") that do not apply to the code or are not inductive are dropped and the
+	// functions concerned are verified again without them (at most four rounds)
+	for round := 0; round < 4; round++ {
+		redo := map[int]bool{}
+		for i, r := range reports {
+			if r == nil {
+				continue
+			}
+			if r.OptionalDropped {
+				redo[i] = true
+			}
+			for _, ob := range r.Obs {
+				if ob.OptKey != "" && ob.Result != nil && ob.Result.Status != "unsat" {
+					droppedInvariantsMu.Lock()
+					droppedInvariants[ob.OptKey] = true
+					droppedInvariantsMu.Unlock()
+					redo[i] = true
+				}
+			}
+		}
+		if len(redo) == 0 {
+			break
+		}
+		var again []*Obligation
+		for i := range redo {
+			w := works[i]
+			reports[i] = verifyFunction(P, S, w.fn, w.ct, id, w.sweep || (id == "C19"))
+			again = append(again, reports[i].Obs...)
+		}
+		dischargeAll(again, filepath.Join(outDir, "smt"), timeout, requireAll, 10)
+		all = all[:0]
+		all = append(all, missing...)
+		for _, r := range reports {
+			all = append(all, r.Obs...)
+		}
+	}
 	tSolve := time.Since(t0).Seconds()
 
 	// ---- verdicts ----
